@@ -75,12 +75,25 @@ def refSnapshot (snaps : List Snapshot) (height : Nat) : Option Snapshot :=
   | s :: [] => some s
   | s :: s2 :: _ => if s.height = height then some s2 else some s
 
-/-- (upper, lower) in the contract's fixed-point arithmetic: ⌊P·(D±f)/D⌋, P = ⌊q·D/b⌋ -/
-def band (D f : Nat) (snaps : List Snapshot) (height : Nat) : Option (Nat × Nat) :=
+/-- the band exactly as the contract computes it (`price_boundaries_of_last_block`), whatever block the
+    reference snapshot is from -/
+def bandRaw (D f : Nat) (snaps : List Snapshot) (height : Nat) : Option (Nat × Nat) :=
   match refSnapshot snaps height with
   | none => none
   | some s =>
     if s.base = 0 ∨ D = 0 then none else
+    let p := s.quote * D / s.base
+    some (p * (D + f) / D, p * (D - f) / D)
+
+/-- (upper, lower) in the contract's fixed-point arithmetic: ⌊P·(D±f)/D⌋, P = ⌊q·D/b⌋.
+    Undefined (`none`) when the reference snapshot is not from an earlier block: in a vAMM's
+    instantiation block the only snapshot is stamped with the current height and is updated in place by
+    every trade, so "the price at the end of the previous block" does not exist and C15 makes no claim. -/
+def band (D f : Nat) (snaps : List Snapshot) (height : Nat) : Option (Nat × Nat) :=
+  match refSnapshot snaps height with
+  | none => none
+  | some s =>
+    if s.base = 0 ∨ D = 0 ∨ height ≤ s.height then none else
     let p := s.quote * D / s.base
     some (p * (D + f) / D, p * (D - f) / D)
 
